@@ -165,7 +165,7 @@ func runCheck(args []string) int {
 	var results []unitRes
 	for _, k := range spec.Units {
 		for _, u := range eng.unitsFor(k) {
-			results = append(results, unitRes{u, eng.verifyFunc(u.key, u.against, u.prefix)})
+			results = append(results, unitRes{u, eng.verifyUnit(u)})
 		}
 	}
 	for _, ln := range spec.Lemmas {
@@ -423,7 +423,7 @@ func runReplay(repo, verif, path string) int {
 	key := rf.Function
 	found := false
 	for _, u := range eng.unitsFor(key) {
-		res := eng.verifyFunc(u.key, u.against, u.prefix)
+		res := eng.verifyUnit(u)
 		if res.Err != "" {
 			fmt.Println("  engine:", res.Err)
 			if strings.HasSuffix(rf.Obligation, "/engine") {
